@@ -221,6 +221,22 @@ func c05Run(c *Ctx) {
 			}
 		}
 	}
+	// 2c. conditions that are comparisons whose operands are traced probes yielding every kind of value:
+	// each operand is evaluated once per test, whatever it yields
+	for _, items := range []string{`["a", "b", nil]`, `[1, 2, "", 3]`, `[` + True() + `, ` + True() + `, ` + False() + `]`, `["x", "x", "y"]`, `[nil, nil, 0]`, `[[1], [2], nil]`} {
+		for _, cond := range []string{`c("L", items[k]) != nil`, `nil != c("R", items[k])`, `c("L", items[k]) == c("R", items[0])`, `c("L", items[k]) != ""`, `c("L", items[k]) == ` + True(), `(cur = c("L", items[k])) != nil`, `c("L", items[k]) != c("R", items[k + 1])`, `!(c("L", items[k]) == nil)`, `c("L", items[k]) != nil && c("R", k) < 2`} {
+			for _, form := range []string{
+				Var("k", "0") + "\n" + While("%C", "{ "+Print(`"body"`)+" k = k + 1; "+If("k > 1", Break())+" }"),
+				For(Var("k", "0"), "%C", "k = k + 1", "{ "+Print(`"body"`)+" "+If("k > 0", Break())+" }"),
+				Var("k", "0") + "\n" + IfElse("%C", Print(`"then"`), Print(`"else"`)),
+			} {
+				src := pre + Var("items", items) + "\n" + Var("cur", "0") + "\n" + strings.ReplaceAll(form, "%C", cond) + "\n" + Print(`"after"`) + "\n" + Print("k") + "\n"
+				if c.Mine() {
+					c05Judge(c, &Case{Gen: "comparison-conditions", Src: src})
+				}
+			}
+		}
+	}
 	// 3. stray signals reaching the top level
 	for _, kw := range []string{Break(), Continue(), Ret(""), Ret("5")} {
 		for _, shape := range []string{
@@ -335,6 +351,6 @@ func init() {
 		Assumptions: []string{"every generated loop is bounded by construction; programs the model cannot finish in 200000 steps are skipped"},
 		Run:         c05Run,
 		Judge:       c05Judge,
-		MustCount:   func(c *Ctx) []string { return []string{"gen:loop-skeletons", "gen:empty-bodies", "gen:long-running-loops", "gen:arm-selection", "gen:stray-signals", "gen:stray-signals-after-history", "gen:else-if-chains", "breaks_taken", "continues_taken", "then_arms", "else_arms", "fault:StrayBreak", "fault:StrayContinue", "fault:StrayReturn", "cli_runs"} },
+		MustCount:   func(c *Ctx) []string { return []string{"gen:loop-skeletons", "gen:empty-bodies", "gen:long-running-loops", "gen:arm-selection", "gen:stray-signals", "gen:stray-signals-after-history", "gen:else-if-chains", "gen:comparison-conditions", "breaks_taken", "continues_taken", "then_arms", "else_arms", "fault:StrayBreak", "fault:StrayContinue", "fault:StrayReturn", "cli_runs"} },
 	})
 }
